@@ -83,6 +83,7 @@ Next ==
     \/ \E f \in Bools : PrepReserve(20, f)
     \/ \E f \in Bools : PrepExtend(5, f)
     \/ PrepReserveHuge
+    \/ PrepMap
     \/ PrepCommit
     \/ PrepDrop("return")
     \/ \E rv \in Bools, h \in {0, 3}, n \in {2, 5} : IterMut([sz |-> 8, al |-> 8], rv, h, n)
@@ -190,6 +191,7 @@ SimStep ==
     \/ (G("prep") /\ PrepExtend(R({1, 2, 3, 7, 20}), FALSE))
     \/ (G("prep") /\ CanFail /\ PrepExtend(R({7, 20, 35}), TRUE))
     \/ (G("prep") /\ G("fail") /\ PrepReserveHuge)
+    \/ (G("prep") /\ PrepMap)
     \* boundary capacities: exactly what the free space of the current chunk holds, one less, one more
     \/ (G("prep") /\ cur # 0 /\ \E e \in {R(SimElems)} :
             LET n == ChunkRemaining(chunks[cur]) \div e.sz IN \E d \in {R({0 - 1, 0, 0, 1})} : n + d >= 1 /\ EnterPrepG(e, R(Bools), n + d, FALSE, FALSE, R(Bools)))
@@ -230,6 +232,7 @@ SimStep ==
     \/ (G("vec") /\ VecIds # {} /\ VecInto(R(VecIds)))
     \/ (G("vec") /\ Cardinality(VecIds) < 3 /\ VecNewG(R(VecElems), R({1, 2, 4, 10}), "none", FALSE, TRUE))
     \/ (G("vec") /\ G("fail") /\ VecIds # {} /\ \E id \in {R(VecIds)} : VecReserveHuge(id, R({"max", "layout"})))
+    \/ (G("vec") /\ G("fail") /\ VecIds # {} /\ VecSpliceHuge(R(VecIds)))
     \/ (G("vec") /\ IterGrow(R(VecElems), R({0, 0, 2, 5, 30}), R({0, 1, 3, 5, 9, 17})))
     \/ (G("vec") /\ FmtGrow(R({<<1, 1>>, <<3, 20>>, <<5, 5, 5>>, <<40, 1, 300>>, <<8, 600>>}), R(Bools)))
     \/ (G("fail") /\ CanFail /\ Alloc(R(Layouts), FALSE, TRUE))
